@@ -91,6 +91,9 @@ def write_doc(levels, spell, place, marks, zz, repeat=False):
             h = ['> ' + x for x in h]
         elif place[i] == 'item':
             h = ['- ' + h[0]] + ['  ' + x for x in h[1:]]
+        elif place[i] == 'item-lazy':
+            # the heading is the second block of an item whose first paragraph is continued by a lazy line
+            h = ['- p', 'lazy', ''] + ['  ' + x for x in h]
         lines += h + ['', 'text %d' % i, '']
     return '\n'.join(lines) + '\n', heads
 
@@ -155,8 +158,10 @@ def configs_for(levels):
         if n >= 2:
             spells.append(['setext' if i % 2 else 'atx' for i in range(n)])
         spells.append(['setext-indented'] * n)      # underline indented by three spaces
-    if n <= 3:
-        places = list(itertools.product(('top', 'quote', 'item'), repeat=n))
+    if n <= 2:
+        places = list(itertools.product(('top', 'quote', 'item', 'item-lazy'), repeat=n))
+    elif n <= 3:
+        places = list(itertools.product(('top', 'quote', 'item'), repeat=n)) + [('item-lazy',) * n]
     else:
         places = [('top',) * n, ('quote',) * n, ('item',) * n, tuple(('top', 'quote', 'item')[i % 3] for i in range(n))]
     if n <= 3:
